@@ -20,7 +20,7 @@ BOUNDS = {"families": "native/gen_dependent.py"}
 
 def tasks(tier):
     # a method is wrapped in its value check iff registration flagged it value-dependent; resolve wraps the flagged rank
-    return _gen.dep_tasks(tier) + _tm.register_unbounded_tasks() + _tm.resolve_unbounded_tasks() + _tm.wrap_tasks()
+    return _gen.dep_tasks(tier) + _gen.valuetype_tasks() + _tm.register_unbounded_tasks() + _tm.resolve_unbounded_tasks() + _tm.wrap_tasks()
 
 
 def conformance(tier):
